@@ -57,6 +57,9 @@ def plan(tier, seed):
         for lay in ("F", "T", "R", "N"):
             for a, b in E.chunks(81, 27):
                 shards.append(("2d", kind, lay, a, b))
+    # batches of 33..81 samples (beyond any block size of a batched implementation)
+    for kind in KINDS:
+        shards.append(("big", kind))
     return shards
 
 
@@ -90,6 +93,9 @@ def programs2d(shard, seed):
 def programs(shard, seed):
     if shard[0] == "2d":
         yield from programs2d(shard, seed)
+        return
+    if shard[0] == "big":
+        yield from big_programs(shard, seed)
         return
     kind, n, metric, a, b = shard
     pts = E.lattice("1d", seed)
@@ -174,7 +180,65 @@ def predict(m, prog, batch):
     return [(int(a), 0) for a in out]
 
 
+def big_case(prog, res=None):
+    """Batches much larger than any block size a batched implementation might use: every sample of an
+    81-point half-grid pool alone, then the whole pool in three orders and two prefixes."""
+    try:
+        m = fit(prog)
+    except Horizon:
+        raise
+    except Exception as ex:
+        return viol(prog, None, "fit raised %r" % (ex,), "fit raised")
+    n = len(prog["pool"])
+    try:
+        alone = [predict(m, prog, [i])[0] for i in range(n)]
+        orders = [list(range(n)), list(range(n - 1, -1, -1)), [(7 * i + 3) % n for i in range(n)],
+                  list(range(33)), list(range(n - 40, n))]
+        for order in orders:
+            got = predict(m, prog, order)
+            if res is not None:
+                res.transitions += 1
+                res.evaluations += len(order)
+                res.traces += 1
+                res.nontrivial += 1
+            for pos, (i, g) in enumerate(zip(order, got)):
+                if g != alone[i]:
+                    return viol(prog, [order], "sample %s receives (label, cluster) %s when predicted alone but %s at "
+                                "position %d of a batch of %d" % (prog["pool"][i], alone[i], g, pos, len(order)),
+                                "alone vs batch differ")
+    except Horizon:
+        raise
+    except Exception as ex:
+        return viol(prog, None, "predict raised %r" % (ex,), "predict raised")
+    return None
+
+
+def big_programs(shard, seed):
+    _, kind = shard
+    sc = [1.0, 0.5, 2.0, 3.0][seed % 4] if seed else 1.0
+    grid = [[sc * a, sc * b] for a in range(3) for b in range(3)]
+    pool = [[sc * 0.5 * a - sc, sc * 0.5 * b - sc] for a in range(9) for b in range(9)]
+    labsets = ([0, 1, 0, 1, 0, 1, 0, 1, 0], [0, 0, 0, 1, 1, 1, 2, 2, 2], [1, 1, 2, 1, 2, 2, 1, 2, 1])
+    for X in (grid, grid[::-1], grid[4:] + grid[:4], grid + [grid[4]]):
+        for lab in labsets:
+            lab = (list(lab) + [lab[4]])[:len(X)]
+            base = {"model": kind, "mode": "features", "X": X, "metric": "euclidean", "labels": lab,
+                    "pool": pool, "big": True}
+            if kind == "SemiSupervisedOPF":
+                yield dict(base, X=X + [[sc * 0.5, sc * 0.5]], n_unlabeled=1)
+            elif kind == "KNNSupervisedOPF":
+                for mk in (1, 2, 3):
+                    yield dict(base, max_k=mk, force_k=mk, val={"X": X, "labels": lab})
+            elif kind == "UnsupervisedOPF":
+                for mk in (1, 2, 3):
+                    yield dict(base, min_k=1, max_k=mk, force_k=mk)
+            else:
+                yield base
+
+
 def run_case(prog, res=None, only=None):
+    if prog.get("big"):
+        return big_case(prog, res)
     try:
         m = fit(prog)
     except Horizon:
